@@ -1,11 +1,18 @@
-//! getters_tool (C16, tie T-gen): runs /repo's generator AS A LIBRARY on grammars with
-//! `#[emit_rule_reference]` (optionally `#[pest_optimizer = false]`) and prints every accessor
-//! function it emits: for each inherent `impl` block of a rule struct, each `fn`: its name, its return
-//! type and its body as token text without white space.
+//! getters_tool (C16, tie T-gen): runs /repo's generator AS A LIBRARY on grammars with `#[emit_rule_reference]`
+//! (optionally `#[pest_optimizer = false]`, `#[box_only_if_needed]`) and reports every accessor function it emits —
+//! not as text but as STRUCTURE: the body is evaluated symbolically (let-bindings, blocks, closures, references are
+//! resolved; variable names, redundant `; res`, `.map(f)` vs `.and_then(|r| Some(f r))` do not matter) into the chain
+//! of field / method hops it performs from `self.content`, which is then read back as a getter path
 //!
-//! stdin : `<gid>\t<opt|raw>\t<hex of grammar text>` per line
-//! stdout: `<gid>\t<opt|raw>\tOK\t<rule> @@ <fn> @@ <type> @@ <body> ## …`  or  `<gid>\t<variant>\tERR\t<hex message>`
-use quote::{quote, ToTokens};
+//!   P ::= (rule) | (content P) | (seq I P) | (choice I F P) | (opt F P) | (rep P) | (tuple P …) | (unknown …)
+//!
+//! (`F` = 1 when the `Option` is `.flatten()`ed; hops in front of a tuple are distributed into its components),
+//! and the return type as  T ::= (ref NAME) | (opt T) | (vec T) | (tuple T …).
+//!
+//! stdin : `<gid>\t<variant: opt|raw|optbox|rawbox>\t<hex of grammar text>` per line
+//! stdout: `<gid>\t<variant>\tOK\t<rule> @@ <fn> @@ <type> @@ <boxed 0|1|?> @@ <path> ## …`  or  `…\tERR\t<hex message>`
+use quote::quote;
+use std::collections::HashMap;
 use std::io::{self, BufRead, Write};
 use syn::visit::Visit;
 
@@ -18,21 +25,272 @@ fn unhex(s: &str) -> String {
     let b: Vec<u8> = (0..s.len()).step_by(2).map(|i| u8::from_str_radix(&s[i..i + 2], 16).unwrap()).collect();
     String::from_utf8(b).unwrap()
 }
-fn squeeze(s: String) -> String { s.chars().filter(|c| !c.is_whitespace()).collect() }
+fn plain(id: &syn::Ident) -> String { id.to_string().trim_start_matches("r#").to_string() }
+
+// ------------------------------------------------------------------------------------------------
+// symbolic values
+
+#[derive(Clone, Debug)]
+enum Sym {
+    Hole(usize),
+    SelfVal,
+    Field(Box<Sym>, String),
+    Deref(Box<Sym>),
+    Method(Box<Sym>, String, Vec<Arg>),
+    Tuple(Vec<Sym>),
+    SomeOf(Box<Sym>),
+    Unknown(String),
+}
+#[derive(Clone, Debug)]
+enum Arg { Closure(usize, Box<Sym>), Other }
+
+struct Ev { next_hole: usize }
+type Env = HashMap<String, Sym>;
+
+impl Ev {
+    fn block(&mut self, b: &syn::Block, env: &Env) -> Sym {
+        let mut env = env.clone();
+        let n = b.stmts.len();
+        for (k, st) in b.stmts.iter().enumerate() {
+            match st {
+                syn::Stmt::Local(l) => {
+                    let name = match &l.pat { syn::Pat::Ident(p) => plain(&p.ident), _ => return Sym::Unknown("let-pattern".into()) };
+                    let v = match &l.init { Some(i) => self.expr(&i.expr, &env), None => return Sym::Unknown("let-without-init".into()) };
+                    env.insert(name, v);
+                }
+                syn::Stmt::Expr(e, semi) => {
+                    if k + 1 == n && semi.is_none() { return self.expr(e, &env); }
+                    return Sym::Unknown("statement".into());
+                }
+                _ => return Sym::Unknown("item-or-macro".into()),
+            }
+        }
+        Sym::Unknown("block-without-value".into())
+    }
+    fn expr(&mut self, e: &syn::Expr, env: &Env) -> Sym {
+        match e {
+            syn::Expr::Path(p) if p.path.segments.len() == 1 => {
+                let n = plain(&p.path.segments[0].ident);
+                if n == "self" { Sym::SelfVal } else { env.get(&n).cloned().unwrap_or(Sym::Unknown(format!("variable-{}", n))) }
+            }
+            syn::Expr::Reference(r) => self.expr(&r.expr, env),
+            syn::Expr::Paren(p) => self.expr(&p.expr, env),
+            syn::Expr::Group(g) => self.expr(&g.expr, env),
+            syn::Expr::Unary(u) if matches!(u.op, syn::UnOp::Deref(_)) => Sym::Deref(Box::new(self.expr(&u.expr, env))),
+            syn::Expr::Field(f) => {
+                let m = match &f.member { syn::Member::Named(i) => plain(i), syn::Member::Unnamed(i) => i.index.to_string() };
+                Sym::Field(Box::new(self.expr(&f.base, env)), m)
+            }
+            syn::Expr::Block(b) => self.block(&b.block, env),
+            syn::Expr::Tuple(t) => Sym::Tuple(t.elems.iter().map(|x| self.expr(x, env)).collect()),
+            syn::Expr::MethodCall(m) => {
+                let recv = self.expr(&m.receiver, env);
+                let args = m.args.iter().map(|a| match a {
+                    syn::Expr::Closure(c) if c.inputs.len() == 1 => {
+                        let name = match &c.inputs[0] { syn::Pat::Ident(p) => plain(&p.ident), _ => return Arg::Other };
+                        let h = self.next_hole; self.next_hole += 1;
+                        let mut env2 = env.clone();
+                        env2.insert(name, Sym::Hole(h));
+                        Arg::Closure(h, Box::new(self.expr(&c.body, &env2)))
+                    }
+                    _ => Arg::Other,
+                }).collect();
+                Sym::Method(Box::new(recv), plain(&m.method), args)
+            }
+            syn::Expr::Call(c) => {
+                let is_some = matches!(&*c.func, syn::Expr::Path(p) if p.path.segments.last().map_or(false, |s| s.ident == "Some"));
+                if is_some && c.args.len() == 1 { Sym::SomeOf(Box::new(self.expr(&c.args[0], env))) } else { Sym::Unknown("call".into()) }
+            }
+            _ => Sym::Unknown("expression".into()),
+        }
+    }
+}
+
+// ------------------------------------------------------------------------------------------------
+// hops and paths
+
+#[derive(Clone, Debug)]
+enum Hop { Field(String), Opt(bool, String), Choice(usize, bool, String), Iter(String), Bad(String) }
+
+/// the hops `s` performs starting from hole `root`; a trailing tuple is returned separately
+fn hops(s: &Sym, root: usize, out: &mut Vec<Hop>) -> Option<Vec<Sym>> {
+    match s {
+        Sym::Hole(h) => { if *h != root { out.push(Hop::Bad("foreign-variable".into())); } None }
+        Sym::Deref(x) => hops(x, root, out),
+        Sym::Field(x, f) => { let t = hops(x, root, out); if t.is_some() { out.push(Hop::Bad("field-of-tuple".into())); } out.push(Hop::Field(f.clone())); None }
+        Sym::Tuple(v) => Some(v.clone()),
+        Sym::Method(recv, name, args) => {
+            // Option chains:  R.as_ref().map(c)[.flatten()]   R._k().map(c)[.flatten()]   (.and_then(|r| Some(..)) = .map)
+            // Vec chain:      R.iter().map(c).collect()
+            let (inner, flat) = if name == "flatten" { (&**recv, true) } else { (s, false) };
+            if let Sym::Method(r2, n2, a2) = inner {
+                if n2 == "collect" {
+                    if let Sym::Method(r3, n3, a3) = &**r2 {
+                        if n3 == "map" {
+                            if let (Sym::Method(r4, n4, _), Some(Arg::Closure(h, body))) = (&**r3, a3.get(0)) {
+                                if n4 == "iter" && !flat {
+                                    if hops(r4, root, out).is_some() { out.push(Hop::Bad("iter-of-tuple".into())); }
+                                    // the element closure starts at the `.matched` field of `Skipped`
+                                    let mut ok = true;
+                                    let b2 = strip_matched(body, *h, &mut ok);
+                                    out.push(if ok { Hop::Iter(path(&b2, *h)) } else { Hop::Bad("element-used-without-matched".into()) });
+                                    return None;
+                                }
+                            }
+                        }
+                    }
+                }
+                let closure = match (n2.as_str(), a2.get(0)) {
+                    ("map", Some(Arg::Closure(h, body))) => Some((*h, (**body).clone())),
+                    ("and_then", Some(Arg::Closure(h, body))) => match &**body { Sym::SomeOf(b) => Some((*h, (**b).clone())), _ => None },
+                    _ => None,
+                };
+                if let (Some((h, body)), Sym::Method(r3, n3, _)) = (closure, &**r2) {
+                    let inner_path = path(&body, h);
+                    if n3 == "as_ref" {
+                        if hops(r3, root, out).is_some() { out.push(Hop::Bad("option-of-tuple".into())); }
+                        out.push(Hop::Opt(flat, inner_path));
+                        return None;
+                    }
+                    if let Some(k) = n3.strip_prefix('_').and_then(|d| d.parse::<usize>().ok()) {
+                        if hops(r3, root, out).is_some() { out.push(Hop::Bad("choice-of-tuple".into())); }
+                        out.push(Hop::Choice(k, flat, inner_path));
+                        return None;
+                    }
+                }
+            }
+            out.push(Hop::Bad(format!("method-{}", name)));
+            None
+        }
+        Sym::SelfVal => { out.push(Hop::Bad("self".into())); None }
+        Sym::SomeOf(_) => { out.push(Hop::Bad("Some".into())); None }
+        Sym::Unknown(w) => { out.push(Hop::Bad(w.clone())); None }
+    }
+}
+
+/// replace `hole.matched` by `hole`; `ok` is cleared when the hole is used in any other way
+fn strip_matched(s: &Sym, h: usize, ok: &mut bool) -> Sym {
+    match s {
+        Sym::Field(x, f) if f == "matched" && matches!(**x, Sym::Hole(k) if k == h) => Sym::Hole(h),
+        Sym::Hole(k) => { if *k == h { *ok = false; } s.clone() }
+        Sym::Field(x, f) => Sym::Field(Box::new(strip_matched(x, h, ok)), f.clone()),
+        Sym::Deref(x) => Sym::Deref(Box::new(strip_matched(x, h, ok))),
+        Sym::SomeOf(x) => Sym::SomeOf(Box::new(strip_matched(x, h, ok))),
+        Sym::Tuple(v) => Sym::Tuple(v.iter().map(|x| strip_matched(x, h, ok)).collect()),
+        Sym::Method(r, n, a) => Sym::Method(Box::new(strip_matched(r, h, ok)), n.clone(), a.iter().map(|x| match x {
+            Arg::Closure(k, b) => Arg::Closure(*k, Box::new(strip_matched(b, h, ok))),
+            Arg::Other => Arg::Other,
+        }).collect()),
+        _ => s.clone(),
+    }
+}
+
+fn wrap_hops(hs: &[Hop], tail: String) -> String {
+    // read the hop list as getter constructors, outermost first
+    let mut k = 0;
+    let mut open = 0;
+    let mut s = String::new();
+    while k < hs.len() {
+        match &hs[k] {
+            Hop::Field(f) if f == "content" => {
+                if k + 2 < hs.len() && matches!(&hs[k + 1], Hop::Field(i) if i.parse::<usize>().is_ok()) && matches!(&hs[k + 2], Hop::Field(m) if m == "matched") {
+                    if let Hop::Field(i) = &hs[k + 1] { s.push_str(&format!("(seq {} ", i)); }
+                    open += 1; k += 3; continue;
+                }
+                if k + 1 < hs.len() {
+                    if let Hop::Iter(p) = &hs[k + 1] {
+                        if k + 2 != hs.len() { return format!("(unknown hops-after-iteration)"); }
+                        s.push_str(&format!("(rep {})", p));
+                        if tail != "(rule)" { return "(unknown tuple-after-iteration)".into(); }
+                        return s + &")".repeat(open);
+                    }
+                }
+                s.push_str("(content "); open += 1; k += 1;
+            }
+            Hop::Opt(flat, p) | Hop::Choice(_, flat, p) => {
+                if k + 1 != hs.len() || tail != "(rule)" { return "(unknown hops-after-option)".into(); }
+                match &hs[k] {
+                    Hop::Opt(..) => s.push_str(&format!("(opt {} {})", *flat as u8, p)),
+                    Hop::Choice(i, ..) => s.push_str(&format!("(choice {} {} {})", i, *flat as u8, p)),
+                    _ => {}
+                }
+                return s + &")".repeat(open);
+            }
+            Hop::Field(f) => return format!("(unknown field-{})", f),
+            Hop::Iter(_) => return "(unknown iteration-without-content)".into(),
+            Hop::Bad(w) => return format!("(unknown {})", w),
+        }
+    }
+    s + &tail + &")".repeat(open)
+}
+
+fn path(s: &Sym, root: usize) -> String {
+    let mut hs = vec![];
+    match hops(s, root, &mut hs) {
+        None => wrap_hops(&hs, "(rule)".into()),
+        Some(comps) => {
+            // hops in front of a tuple are already part of every component (they were evaluated inside each)
+            if !hs.is_empty() { return "(unknown hops-before-tuple-value)".into(); }
+            let parts: Vec<String> = comps.iter().map(|c| path(c, root)).collect();
+            format!("(tuple {})", parts.join(" "))
+        }
+    }
+}
+
+fn ty(t: &syn::Type) -> String {
+    match t {
+        syn::Type::Reference(r) => match &*r.elem {
+            syn::Type::Path(p) => format!("(ref {})", p.path.segments.last().map_or("?".into(), |s| plain(&s.ident))),
+            _ => "(unknown ref)".into(),
+        },
+        syn::Type::Paren(p) => ty(&p.elem),
+        syn::Type::Group(g) => ty(&g.elem),
+        syn::Type::Tuple(t) => format!("(tuple {})", t.elems.iter().map(ty).collect::<Vec<_>>().join(" ")),
+        syn::Type::Path(p) => {
+            let last = match p.path.segments.last() { Some(l) => l, None => return "(unknown path)".into() };
+            let arg = match &last.arguments {
+                syn::PathArguments::AngleBracketed(a) if a.args.len() == 1 => match &a.args[0] { syn::GenericArgument::Type(t) => Some(ty(t)), _ => None },
+                _ => None,
+            };
+            match (last.ident.to_string().as_str(), arg) {
+                ("Option", Some(a)) => format!("(opt {})", a),
+                ("Vec", Some(a)) => format!("(vec {})", a),
+                (n, _) => format!("(unknown type-{})", n),
+            }
+        }
+        _ => "(unknown type)".into(),
+    }
+}
 
 struct V { out: Vec<String> }
 impl<'ast> Visit<'ast> for V {
     fn visit_item_impl(&mut self, i: &'ast syn::ItemImpl) {
         if i.trait_.is_none() {
             if let syn::Type::Path(p) = &*i.self_ty {
-                let name = p.path.segments.last().unwrap().ident.to_string();
-                let name = name.trim_start_matches("r#").to_string();
+                let name = plain(&p.path.segments.last().unwrap().ident);
                 for it in &i.items {
                     if let syn::ImplItem::Fn(f) = it {
-                        let fname = f.sig.ident.to_string().trim_start_matches("r#").to_string();
-                        let ty = match &f.sig.output { syn::ReturnType::Type(_, t) => squeeze(t.to_token_stream().to_string()), _ => "()".into() };
-                        let body = squeeze(f.block.to_token_stream().to_string());
-                        self.out.push(format!("{} @@ {} @@ {} @@ {}", name, fname, ty, body));
+                        let t = match &f.sig.output { syn::ReturnType::Type(_, t) => ty(t), _ => "(unknown unit)".into() };
+                        // `{ let res = <&self.content | &*self.content>; <path> }`
+                        let mut ev = Ev { next_hole: 1 };
+                        let (boxed, p) = match f.block.stmts.first() {
+                            Some(syn::Stmt::Local(l)) => {
+                                let var = match &l.pat { syn::Pat::Ident(p) => Some(plain(&p.ident)), _ => None };
+                                let init = l.init.as_ref().map(|i| ev.expr(&i.expr, &Env::new()));
+                                let boxed = match &init {
+                                    Some(Sym::Deref(x)) if matches!(&**x, Sym::Field(s, c) if c == "content" && matches!(**s, Sym::SelfVal)) => "1",
+                                    Some(Sym::Field(s, c)) if c == "content" && matches!(**s, Sym::SelfVal) => "0",
+                                    _ => "?",
+                                };
+                                let mut env = Env::new();
+                                if let Some(v) = var { env.insert(v, Sym::Hole(0)); }
+                                let rest = syn::Block { brace_token: f.block.brace_token, stmts: f.block.stmts[1..].to_vec() };
+                                let s = ev.block(&rest, &env);
+                                (boxed, path(&s, 0))
+                            }
+                            _ => ("?", "(unknown body)".to_string()),
+                        };
+                        self.out.push(format!("{} @@ {} @@ {} @@ {} @@ {}", name, plain(&f.sig.ident), t, boxed, p));
                     }
                 }
             }
@@ -50,12 +308,13 @@ fn main() {
         let f: Vec<&str> = line.split('\t').collect();
         if f.len() != 3 { continue; }
         let (gid, variant, g) = (f[0].to_string(), f[1].to_string(), unhex(f[2]));
-        let raw = variant == "raw";
+        let v2 = variant.clone();
         let res = std::panic::catch_unwind(move || {
-            let ts = if raw {
-                pest_typed_generator::derive_typed_parser(quote! { #[grammar_inline = #g] #[emit_rule_reference] #[pest_optimizer = false] #[no_warnings] struct P; }, false, true)
-            } else {
-                pest_typed_generator::derive_typed_parser(quote! { #[grammar_inline = #g] #[emit_rule_reference] #[no_warnings] struct P; }, false, true)
+            let ts = match v2.as_str() {
+                "raw" => pest_typed_generator::derive_typed_parser(quote! { #[grammar_inline = #g] #[emit_rule_reference] #[pest_optimizer = false] #[no_warnings] struct P; }, false, true),
+                "optbox" => pest_typed_generator::derive_typed_parser(quote! { #[grammar_inline = #g] #[emit_rule_reference] #[box_only_if_needed] #[no_warnings] struct P; }, false, true),
+                "rawbox" => pest_typed_generator::derive_typed_parser(quote! { #[grammar_inline = #g] #[emit_rule_reference] #[pest_optimizer = false] #[box_only_if_needed] #[no_warnings] struct P; }, false, true),
+                _ => pest_typed_generator::derive_typed_parser(quote! { #[grammar_inline = #g] #[emit_rule_reference] #[no_warnings] struct P; }, false, true),
             };
             let file: syn::File = syn::parse2(ts).map_err(|e| format!("generated code does not parse: {}", e))?;
             let mut v = V { out: vec![] };
